@@ -193,100 +193,147 @@ func TestVerifRows(t *testing.T) {
 					if strings.HasSuffix(d.name, "/partial-only") && strict {
 						continue // how strict mode counts a field tagged "-" is not stated
 					}
-					f := &fakeDB{columns: cols}
-					for r := 0; r < nrows; r++ {
-						var row []driver.Value
-						for _, col := range cols {
-							row = append(row, colValue(col, r))
-						}
-						f.rows = append(f.rows, row)
-					}
-					db := f.open()
-					conn := NewConnFromDB(db)
-					v := d.mk()
-					pre := 0
-					if prefilled {
-						// e.g. pages accumulated into one slice, or a reused destination
-						sv := reflect.ValueOf(v).Elem()
-						sv.Set(reflect.Append(sv, reflect.Zero(sv.Type().Elem())))
-						pre = 1
-					}
-					var err error
-					var pan any
-					func() {
-						defer func() { pan = recover() }()
-						switch {
-						case d.slice && strict:
-							err = conn.QueryRows(v, "q")
-						case d.slice:
-							err = conn.QueryRowsPartial(v, "q")
-						case strict:
-							err = conn.QueryRow(v, "q")
-						default:
-							err = conn.QueryRowPartial(v, "q")
-						}
-					}()
-					db.Close()
-					in := fmt.Sprintf("dest=%s columns=%v rows=%d strict=%v prefilled=%v", d.name, cols, nrows, strict, prefilled)
-					class := fmt.Sprintf("%s/cols=%d/rows=%d/strict=%v/prefilled=%v/err=%v", d.name, len(cols), nrows, strict, prefilled, err != nil)
-					c.Eval(class, func() any { return map[string]any{"case": in, "error": fmt.Sprint(err), "dest": fmt.Sprintf("%+v", reflect.ValueOf(v).Elem().Interface())} })
-					if pan != nil {
-						c.Violation(in, "panic", fmt.Sprint(pan))
-						continue
-					}
-					fewer := len(cols) < 3
-					if !d.slice && nrows == 0 {
-						if err != ErrNotFound {
-							c.Violation(in, "empty result", fmt.Sprintf("single-row query on an empty result returned %v, want ErrNotFound", err))
-						}
-						continue
-					}
-					if strict && fewer && nrows > 0 {
-						if err == nil {
-							c.Violation(in, "strict missing columns", fmt.Sprintf("strict mode with %d columns for 3 fields returned no error: %+v", len(cols), reflect.ValueOf(v).Elem().Interface()))
-						}
-						continue
-					}
-					if !d.tagged && fewer {
-						continue // positional with fewer columns in partial mode: outside the statement
-					}
-					if err != nil {
-						c.Violation(in, "unexpected error", err.Error())
-						continue
-					}
-					// compare every element/field with the column of its name (position for untagged)
-					var elems []reflect.Value
-					rv := reflect.ValueOf(v).Elem()
-					if d.slice {
-						// (whether rows are appended to what the destination held or replace it is
-						// not stated: the rows read are the last nrows elements either way)
-						if rv.Len() != nrows+pre && rv.Len() != nrows {
-							c.Violation(in, "row count", fmt.Sprintf("%d elements for %d rows (destination held %d before)", rv.Len(), nrows, pre))
-							continue
-						}
-						for i := rv.Len() - nrows; i < rv.Len(); i++ {
-							elems = append(elems, rv.Index(i))
-						}
-					} else {
-						elems = []reflect.Value{rv}
-					}
-					for r, e := range elems {
-						byName := map[string]any{}
-						var byPos []any
-						flatten(e, byName, &byPos)
-						if d.tagged {
+					for _, via := range []string{"conn", "stmt", "tx", "txstmt"} {
+						f := &fakeDB{columns: cols}
+						for r := 0; r < nrows; r++ {
+							var row []driver.Value
 							for _, col := range cols {
-								if col == "d" || col == "n" || col == "t" {
-									continue
+								row = append(row, colValue(col, r))
+							}
+							f.rows = append(f.rows, row)
+						}
+						db := f.open()
+						conn := NewConnFromDB(db)
+						v := d.mk()
+						pre := 0
+						if prefilled {
+							// e.g. pages accumulated into one slice, or a reused destination
+							sv := reflect.ValueOf(v).Elem()
+							sv.Set(reflect.Append(sv, reflect.Zero(sv.Type().Elem())))
+							pre = 1
+						}
+						var err error
+						var pan any
+						// the same four queries through every entry point: the connection, a prepared
+						// statement, a transaction session, a statement prepared inside a transaction
+						type querier interface {
+							QueryRow(v any, args ...any) error
+							QueryRowPartial(v any, args ...any) error
+							QueryRows(v any, args ...any) error
+							QueryRowsPartial(v any, args ...any) error
+						}
+						run := func(q querier, args ...any) {
+							switch {
+							case d.slice && strict:
+								err = q.QueryRows(v, args...)
+							case d.slice:
+								err = q.QueryRowsPartial(v, args...)
+							case strict:
+								err = q.QueryRow(v, args...)
+							default:
+								err = q.QueryRowPartial(v, args...)
+							}
+						}
+						func() {
+							defer func() { pan = recover() }()
+							switch via {
+							case "conn":
+								run(connQuerier{conn})
+							case "stmt":
+								st, perr := conn.Prepare("q")
+								if perr != nil {
+									err = perr
+									return
 								}
-								if byName[col] != colValue(col, r) {
-									c.Violation(in, "column-name mapping", fmt.Sprintf("row %d: field %s = %v, column %s holds %v (dest %+v)", r, strings.ToUpper(col), byName[col], col, colValue(col, r), e.Interface()))
+								defer st.Close()
+								run(st)
+							case "tx":
+								terr := conn.Transact(func(s Session) error {
+									run(connQuerier{s})
+									return nil
+								})
+								if err == nil {
+									err = terr
+								}
+							case "txstmt":
+								terr := conn.Transact(func(s Session) error {
+									st, perr := s.Prepare("q")
+									if perr != nil {
+										return perr
+									}
+									defer st.Close()
+									run(st)
+									return nil
+								})
+								if err == nil {
+									err = terr
 								}
 							}
+						}()
+						db.Close()
+						in := fmt.Sprintf("dest=%s columns=%v rows=%d strict=%v prefilled=%v via=%s", d.name, cols, nrows, strict, prefilled, via)
+						class := fmt.Sprintf("%s/cols=%d/rows=%d/strict=%v/prefilled=%v/via=%s/err=%v", d.name, len(cols), nrows, strict, prefilled, via, err != nil)
+						c.Eval(class, func() any {
+							return map[string]any{"case": in, "error": fmt.Sprint(err), "dest": fmt.Sprintf("%+v", reflect.ValueOf(v).Elem().Interface())}
+						})
+						if pan != nil {
+							c.Violation(in, "panic", fmt.Sprint(pan))
+							continue
+						}
+						fewer := len(cols) < 3
+						if !d.slice && nrows == 0 {
+							if err != ErrNotFound {
+								c.Violation(in, "empty result", fmt.Sprintf("single-row query on an empty result returned %v, want ErrNotFound", err))
+							}
+							continue
+						}
+						if strict && fewer && nrows > 0 {
+							if err == nil {
+								c.Violation(in, "strict missing columns", fmt.Sprintf("strict mode with %d columns for 3 fields returned no error: %+v", len(cols), reflect.ValueOf(v).Elem().Interface()))
+							}
+							continue
+						}
+						if !d.tagged && fewer {
+							continue // positional with fewer columns in partial mode: outside the statement
+						}
+						if err != nil {
+							c.Violation(in, "unexpected error", err.Error())
+							continue
+						}
+						// compare every element/field with the column of its name (position for untagged)
+						var elems []reflect.Value
+						rv := reflect.ValueOf(v).Elem()
+						if d.slice {
+							// (whether rows are appended to what the destination held or replace it is
+							// not stated: the rows read are the last nrows elements either way)
+							if rv.Len() != nrows+pre && rv.Len() != nrows {
+								c.Violation(in, "row count", fmt.Sprintf("%d elements for %d rows (destination held %d before)", rv.Len(), nrows, pre))
+								continue
+							}
+							for i := rv.Len() - nrows; i < rv.Len(); i++ {
+								elems = append(elems, rv.Index(i))
+							}
 						} else {
-							for i, col := range cols {
-								if byPos[i] != colValue(col, r) {
-									c.Violation(in, "positional mapping", fmt.Sprintf("row %d: field #%d = %v, column %s holds %v", r, i, byPos[i], col, colValue(col, r)))
+							elems = []reflect.Value{rv}
+						}
+						for r, e := range elems {
+							byName := map[string]any{}
+							var byPos []any
+							flatten(e, byName, &byPos)
+							if d.tagged {
+								for _, col := range cols {
+									if col == "d" || col == "n" || col == "t" {
+										continue
+									}
+									if byName[col] != colValue(col, r) {
+										c.Violation(in, "column-name mapping", fmt.Sprintf("row %d: field %s = %v, column %s holds %v (dest %+v)", r, strings.ToUpper(col), byName[col], col, colValue(col, r), e.Interface()))
+									}
+								}
+							} else {
+								for i, col := range cols {
+									if byPos[i] != colValue(col, r) {
+										c.Violation(in, "positional mapping", fmt.Sprintf("row %d: field #%d = %v, column %s holds %v", r, i, byPos[i], col, colValue(col, r)))
+									}
 								}
 							}
 						}
@@ -329,4 +376,17 @@ func TestVerifRows(t *testing.T) {
 		}
 	}
 	c.Done()
+}
+
+// connQuerier gives a connection or a transaction session the shape of a prepared statement
+// (the query text is fixed).
+type connQuerier struct{ s Session }
+
+func (q connQuerier) QueryRow(v any, args ...any) error { return q.s.QueryRow(v, "q", args...) }
+func (q connQuerier) QueryRowPartial(v any, args ...any) error {
+	return q.s.QueryRowPartial(v, "q", args...)
+}
+func (q connQuerier) QueryRows(v any, args ...any) error { return q.s.QueryRows(v, "q", args...) }
+func (q connQuerier) QueryRowsPartial(v any, args ...any) error {
+	return q.s.QueryRowsPartial(v, "q", args...)
 }
